@@ -18,7 +18,9 @@
 EXTENDS Naturals, Sequences, FiniteSets
 CONSTANTS Body, Modules, ScriptSet, Submodule(_, _)
 \* Submodule(m, a) = the full name of submodule a of package m if it exists, else ""
-VARIABLES script, status, stack, defined, err, events
+VARIABLES script, status, stack, defined, err, events, soft
+\* soft: "none", or what made the outcome of the import depend on the order without failing it: a probe that saw a
+\* partially initialised module, or an exception that a try handler swallowed
 
 Main == "__main__"
 BodyOf(m) == IF m = Main THEN script ELSE Body[m]
@@ -29,7 +31,7 @@ Init == /\ script \in ScriptSet
         /\ status = [m \in Modules |-> "absent"]
         /\ stack = <<[m |-> Main, pc |-> 1]>>
         /\ defined = [m \in Modules |-> {}]
-        /\ err = "none" /\ events = <<>>
+        /\ err = "none" /\ events = <<>> /\ soft = "none"
 
 Advance == stack' = [stack EXCEPT ![Len(stack)].pc = @ + 1]
 Push(m) == /\ stack' = Append(stack, [m |-> m, pc |-> 1])
@@ -38,6 +40,7 @@ Push(m) == /\ stack' = Append(stack, [m |-> m, pc |-> 1])
 
 \* a module body ran to its end: the module is done and becomes an attribute of its parent package
 Return ==
+    /\ UNCHANGED soft
     /\ err = "none" /\ Len(stack) > 1 /\ Top.pc > Len(BodyOf(Top.m))
     /\ status' = [status EXCEPT ![Top.m] = "done"]
     /\ stack' = SubSeq(stack, 1, Len(stack) - 1)
@@ -47,42 +50,44 @@ Return ==
 Exec ==
     /\ err = "none" /\ Top.pc <= Len(BodyOf(Top.m))
     /\ LET st == BodyOf(Top.m)[Top.pc] IN
-       CASE st.op = "imp" ->
-              IF status[st.m] = "absent" THEN Push(st.m) /\ UNCHANGED <<script, defined, err>>
-              ELSE Advance /\ UNCHANGED <<script, status, defined, err, events>>
-         [] st.op = "from" ->
-              IF status[st.m] = "absent" THEN Push(st.m) /\ UNCHANGED <<script, defined, err>>
-              ELSE IF st.a \in defined[st.m] THEN Advance /\ UNCHANGED <<script, status, defined, err, events>>
-              ELSE IF Submodule(st.m, st.a) # "" /\ status[Submodule(st.m, st.a)] = "absent"
-                   THEN Push(Submodule(st.m, st.a)) /\ UNCHANGED <<script, defined, err>>
-              ELSE IF Submodule(st.m, st.a) # "" THEN Advance /\ UNCHANGED <<script, status, defined, err, events>>
-              ELSE err' = "ImportError" /\ UNCHANGED <<script, status, stack, defined, events>>
-         [] st.op = "use" ->
-              IF st.a \in defined[st.m] \/ (Submodule(st.m, st.a) # "" /\ status[Submodule(st.m, st.a)] = "done")
-              THEN Advance /\ UNCHANGED <<script, status, defined, err, events>>
-              ELSE err' = "AttributeError" /\ UNCHANGED <<script, status, stack, defined, events>>
-         [] st.op = "probe" ->
-              IF st.a \in defined[st.m] \/ (Submodule(st.m, st.a) # "" /\ status[Submodule(st.m, st.a)] = "done")
-              THEN Advance /\ UNCHANGED <<script, status, defined, err, events>>
-              ELSE err' = "OrderDependent" /\ UNCHANGED <<script, status, stack, defined, events>>
-         [] st.op = "def" ->
-              /\ defined' = [defined EXCEPT ![Top.m] = @ \cup {st.a}]
-              /\ Advance /\ UNCHANGED <<script, status, err, events>>
+       /\ soft' = IF st.op = "probe" /\ ~(st.a \in defined[st.m] \/ (Submodule(st.m, st.a) # "" /\ status[Submodule(st.m, st.a)] = "done"))
+                  THEN "OrderDependent" ELSE soft
+       /\ CASE st.op = "imp" ->
+                 IF status[st.m] = "absent" THEN Push(st.m) /\ UNCHANGED <<script, defined, err>>
+                 ELSE Advance /\ UNCHANGED <<script, status, defined, err, events>>
+            [] st.op = "from" ->
+                 IF status[st.m] = "absent" THEN Push(st.m) /\ UNCHANGED <<script, defined, err>>
+                 ELSE IF st.a \in defined[st.m] THEN Advance /\ UNCHANGED <<script, status, defined, err, events>>
+                 ELSE IF Submodule(st.m, st.a) # "" /\ status[Submodule(st.m, st.a)] = "absent"
+                      THEN Push(Submodule(st.m, st.a)) /\ UNCHANGED <<script, defined, err>>
+                 ELSE IF Submodule(st.m, st.a) # "" THEN Advance /\ UNCHANGED <<script, status, defined, err, events>>
+                 ELSE err' = "ImportError" /\ UNCHANGED <<script, status, stack, defined, events>>
+            [] st.op = "use" ->
+                 IF st.a \in defined[st.m] \/ (Submodule(st.m, st.a) # "" /\ status[Submodule(st.m, st.a)] = "done")
+                 THEN Advance /\ UNCHANGED <<script, status, defined, err, events>>
+                 ELSE err' = "AttributeError" /\ UNCHANGED <<script, status, stack, defined, events>>
+            [] st.op = "probe" ->
+                 IF st.a \in defined[st.m] \/ (Submodule(st.m, st.a) # "" /\ status[Submodule(st.m, st.a)] = "done")
+                 THEN Advance /\ UNCHANGED <<script, status, defined, err, events>>
+                 ELSE Advance /\ UNCHANGED <<script, status, defined, err, events>>       \* never raises; recorded in soft
+            [] st.op = "def" ->
+                 /\ defined' = [defined EXCEPT ![Top.m] = @ \cup {st.a}]
+                 /\ Advance /\ UNCHANGED <<script, status, err, events>>
 
 \* an exception travels up: the statement that was executing in the top frame may catch it
 Unwind ==
     /\ err # "none" /\ Len(stack) >= 1
     /\ LET st == BodyOf(Top.m)[Top.pc] IN
        IF Covers(st.catch, err)
-       THEN /\ err' = "none" /\ Advance /\ UNCHANGED <<script, status, defined, events>>
+       THEN /\ err' = "none" /\ Advance /\ soft' = "Swallowed" /\ UNCHANGED <<script, status, defined, events>>
        ELSE /\ Len(stack) > 1
             /\ stack' = SubSeq(stack, 1, Len(stack) - 1)
             /\ status' = [status EXCEPT ![Top.m] = "absent"]
             /\ defined' = [defined EXCEPT ![Top.m] = {}]
             /\ events' = Append(events, <<"fail", Top.m>>)
-            /\ UNCHANGED <<script, err>>
+            /\ UNCHANGED <<script, err, soft>>
 
 Next == (Exec \/ Return \/ Unwind) /\ UNCHANGED script
 Finished == Len(stack) = 1 /\ (Top.pc > Len(script) \/ (err # "none" /\ ~Covers(script[Top.pc].catch, err)))
-ImportSafe == Finished => err = "none"
+ImportSafe == Finished => (err = "none" /\ soft = "none")
 =============================================================================
